@@ -6,6 +6,11 @@ VERIF = os.path.dirname(os.path.dirname(os.path.abspath(__file__)))
 LEAN = os.path.join(VERIF, "lean")
 HARNESS = os.path.join(VERIF, "harness")
 HARNESS_BIN = os.path.join(HARNESS, "target", "debug", "cfb-verif-harness")
+# coverage mode (tools/coverage.sh only, never a registered check): the harness is built with
+# -C instrument-coverage into $VERIF_COVERAGE/target so that the campaigns' reach into /repo/src can be measured
+COVDIR = os.environ.get("VERIF_COVERAGE")
+if COVDIR:
+    HARNESS_BIN = os.path.join(COVDIR, "target", "debug", "cfb-verif-harness")
 DRIVER_BIN = os.path.join(LEAN, ".lake", "build", "bin", "driver")
 REPO = os.environ.get("VERIF_REPO", "/repo")
 ALLOWED_AXIOMS = {"propext", "Classical.choice", "Quot.sound"}
@@ -219,7 +224,11 @@ def build_harness(ctx):
     if not os.path.exists(cfg) or open(cfg).read() != want:
         with open(cfg, "w") as f:
             f.write(want)
-    rc, out = run(["cargo", "build", "--offline"], cwd=HARNESS, timeout=3600)
+    if COVDIR:
+        rc, out = run(["cargo", "+nightly", "build", "--offline"], cwd=HARNESS, timeout=3600,
+                      env={"RUSTFLAGS": "--cfg cfb_verif -C instrument-coverage", "CARGO_TARGET_DIR": os.path.join(COVDIR, "target")})
+    else:
+        rc, out = run(["cargo", "build", "--offline"], cwd=HARNESS, timeout=3600)
     if rc != 0:
         errs = [l for l in out.splitlines() if l.startswith("error")][:5]
         ctx.undischarged.append("harness does not build against /repo's working tree: " + " / ".join(errs))
